@@ -673,6 +673,24 @@ func main() {
 		g.do("msg", append([]string{"46", lib.Hex(g.asciiN(rng.Intn(9))), msg}, ops...)...)
 	}
 
+	// 5b. argument domains of the prefix writers: module names of every length 0..12, ASCII and arbitrary bytes,
+	//     through New+Msg and through Module, with and without a message
+	for n := 0; n <= 12; n++ {
+		for rep := 0; rep < 4; rep++ {
+			name := g.asciiN(n)
+			if rep%2 == 1 {
+				name = rng.Bytes(n)
+			}
+			msg := "-"
+			if rep >= 2 {
+				msg = lib.Hex(g.textN(10))
+			}
+			g.do("msg", "46", lib.Hex(name), msg, "u8:61:7")
+			g.do("line", "46", itoa(rng.Pick(0, 7, 100)), "mod:"+lib.Hex(name)+":"+msg, "lab:78")
+			g.do("line", "46", itoa(bufSize-9+rep), "mod:"+lib.Hex(name)+":"+msg)
+		}
+	}
+
 	// 6. arrays longer than the buffer, from every kind of starting index
 	if arrays {
 		for i := 0; i < 150*scale; i++ {
